@@ -583,6 +583,7 @@ class Project:
 
     def __init__(self):
         self.files, self.late, self.config, self.baseline, self.tags, self.customs, self.max_lines = {}, {}, "", False, set(), [], 4
+        self.unreadable = []
 
 
 def toml_str(s):
@@ -683,6 +684,15 @@ def gen_project(rng, kind):
             com, bl = rng.choice([0, 0, 1, 2]), rng.choice([0, 0, 1, 3])
         cm = LANGS[ext][1] if ext in LANGS else "#"
         line = None
+        if ext in LANGS and rng.random() < (0.3 if kind in ("hostile", "mixed", "plain") else 0.12):
+            # a known-language file over (or at) the limit whose CONTENT is not valid UTF-8 (a Latin-1 byte in a
+            # comment): the byte-based counter copes, fs::read_to_string in the suggestion pass does not
+            n = rng.choice([max_lines, max_lines + 1, max_lines + 3])
+            P.files[rel] = (LANGS[ext][2] + "\n").encode() * n + cm.encode() + b" caf\xe9 na\xefve\n" + (b"\xff\xfe\n" if rng.random() < 0.3 else b"")
+            P.tags.add("nonutf8-content")
+            if rng.random() < 0.3:
+                P.unreadable.append(rel)
+            continue
         if ext == "rs" and rng.random() < (0.5 if kind in ("hostile", "mixed") else 0.15):
             # functions longer than the limit: the only inputs for which --suggest attaches split suggestions
             P.files[rel] = "".join("fn f%d() {\n%s}\n\n" % (k, "    let a = 1;\n" * (max_lines + 2)) for k in range(rng.choice([2, 3])))
@@ -697,6 +707,15 @@ def gen_project(rng, kind):
         # one file per language, equal code, one directory each: ties in both breakdown keys
         for e in exts:
             P.files[("t_" + e + "/tie." + e).encode()] = body(e, LANGS[e][1], tie_code, 0, 0, rng)
+    if structure and rng.random() < 0.7:
+        # a directory whose NAME carries a language extension and that breaks max_files: the structure result
+        # names a path the suggestion pass takes for a source file
+        d = rng.choice(dirs)
+        dn = (d + b"/" if d else b"") + rng.choice([b"gen.js", b"mod.rs", b"pkg.py", b"v1.go", b"deep.c"])
+        e = rng.choice(exts)
+        for k in range(rng.choice([4, 5])):
+            P.files[dn + b"/m%d." % k + e.encode()] = body(e, LANGS[e][1], 1, 0, 0, rng)
+        P.tags.add("langlike-dir")
     if structure and rng.random() < 0.7:
         d = rng.choice(dirs)
         P.files[(d + b"/" if d else b"") + b"old.bak"] = "x\n"
